@@ -5,7 +5,7 @@
    strict_total ltb := irreflexive, transitive, incomparable elements are equal (the dtype's < ; NaN-free) *)
 From Coq Require Import ZArith List Bool.
 From EV Require Import Res Arr Spans SpansSpec SpansBase SpansRef SpansField SpansKernels SpansIndexed SpansOrder
-  SpansReduce SpansMerge SpansIndexedReduce SpansMain SpansSorted SpansFilter.
+  SpansReduce SpansMerge SpansIndexedReduce SpansMain SpansSorted SpansFilter SpansRle SpansRleProofs.
 Import ListNotations.
 Open Scope Z_scope.
 
@@ -230,3 +230,43 @@ Theorem check_if_sorted_correct : forall (A:Type) (ltb:A -> A -> bool) (d:A), st
   check_if_sorted_for_multi_fields ltb fields = Ok (rows_sortedb ltb (rows_of d fields n)).
 Proof. exact (@check_if_sorted_ref). Qed.
 Print Assumptions check_if_sorted_correct.
+
+(* ---- 12. run-length encoded columns (large inputs of the correspondence run; Model/SpansRle.v) ------------- *)
+(* expand [(v0,n0);(v1,n1);…] = v0 × n0 ++ v1 × n1 ++ … (adjacent runs may carry equal values, n <= 0 = no rows);
+   spans_of_rle works on the encoding only.  These theorems make the answer computed on the encoding the answer of
+   the statement-level models on the expanded column, for every encoding (full). *)
+Theorem spans_rle_correct : forall (A:Type) (neqb:A -> A -> bool) (d:A) (rl:list (A * Z)),
+  neq_test neqb -> is_spans d (expand rl) (spans_of_rle neqb rl).
+Proof. exact (@spans_rle_correct_pf). Qed.
+Print Assumptions spans_rle_correct.
+Theorem spans_rle_field : forall (A:Type) (neqb:A -> A -> bool) (rl:list (A * Z)),
+  neq_test neqb -> get_spans_for_field neqb (expand rl) = spans_of_rle neqb rl.
+Proof. exact (@spans_rle_field_pf). Qed.
+Print Assumptions spans_rle_field.
+Theorem field_get_spans_rle_num : forall r, field_get_spans (ColNum (expand r)) = Ok (spans_of_rle Z_neqb r).
+Proof. exact field_get_spans_rle_num_pf. Qed.
+Print Assumptions field_get_spans_rle_num.
+Theorem field_get_spans_rle_fixed : forall r, field_get_spans (ColFixed (expand r)) = Ok (spans_of_rle bytes_neqb r).
+Proof. exact field_get_spans_rle_fixed_pf. Qed.
+Print Assumptions field_get_spans_rle_fixed.
+Theorem field_get_spans_rle_indexed : forall indices values (r:list (list Z * Z)),
+  valid_indexed indices values -> indexed_rows indices values = expand r ->
+  field_get_spans (ColIndexed indices values) = Ok (spans_of_rle bytes_neqb r).
+Proof. exact field_get_spans_rle_indexed_pf. Qed.
+Print Assumptions field_get_spans_rle_indexed.
+(* Session.get_spans(fields=(Field, Field)) merges whatever the two fields return … *)
+Theorem session_fields_rle : forall c0 c1 s0 s1, field_get_spans c0 = Ok s0 -> field_get_spans c1 = Ok s1 ->
+  session_get_spans_fields c0 c1 = get_spans_for_2_fields_by_spans s0 s1.
+Proof. exact session_fields_rle_pf. Qed.
+Print Assumptions session_fields_rle.
+(* … and for equally long columns that merge is what the 2-array kernel returns on the expanded columns: THE span
+   list of the zipped column *)
+Theorem spans_rle_2_arrays : forall (A B:Type) (neqbA:A -> A -> bool) (neqbB:B -> B -> bool) (dA:A) (dB:B)
+  (r0:list (A * Z)) (r1:list (B * Z)),
+  neq_test neqbA -> neq_test neqbB -> rle_len r0 = rle_len r1 ->
+  get_spans_for_2_fields neqbA neqbB (expand r0) (expand r1) = spans_of_rle_2 neqbA neqbB r0 r1 /\
+  exists sp, spans_of_rle_2 neqbA neqbB r0 r1 = Ok sp /\ is_spans (dA, dB) (combine (expand r0) (expand r1)) sp.
+Proof. exact (@spans_rle_2_arrays_pf). Qed.
+Print Assumptions spans_rle_2_arrays.
+Example spans_rle_example : spans_of_rle Z_neqb [(7, 4194304); (7, 1); (8, 0); (9, 4194303)] = [0; 4194305; 8388608].
+Proof. vm_compute. reflexivity. Qed.
